@@ -85,6 +85,28 @@ theorem reverse_preserves {α : Type} (p : Pep α) (h : WF p) :
   · rw [reverse_of_le p hn]
     exact ⟨rfl, rfl, rfl, rfl, rfl, rfl, rfl, rfl, rfl, rfl⟩
 
+theorem revSlice_perm {β : Type} (n : Nat) (l : List β) (h : 1 ≤ n) : (revSlice n l).Perm l := by
+  unfold revSlice
+  have e : l = l.take 1 ++ ((l.drop 1).take (n - 1) ++ l.drop n) := by
+    have h1 : (l.drop 1).drop (n - 1) = l.drop n := by
+      rw [List.drop_drop]; congr 1; omega
+    rw [← h1, List.take_append_drop, List.take_append_drop]
+  conv_rhs => rw [e]
+  rw [List.append_assoc]
+  exact List.Perm.append_left _ (List.Perm.append_right _ (List.reverse_perm _))
+
+/-- **C07.reverse_perm** — for EVERY peptide (no well-formedness needed) the decoy's residues are a permutation of
+the target's, and so are its modification slots: a decoy has its target's amino-acid composition (hence the same
+residue-mass sum, whatever the summation order costs in rounding) and the same multiset of site modifications. -/
+theorem reverse_perm {α : Type} (p : Pep α) :
+    (reverse p).sequence.Perm p.sequence ∧ (reverse p).mods.Perm p.mods := by
+  unfold reverse
+  by_cases hn : p.sequence.length - 1 > 1
+  · simp only [hn, if_true]
+    exact ⟨revSlice_perm _ _ (by omega), revSlice_perm _ _ (by omega)⟩
+  · simp only [hn, if_false]
+    exact ⟨List.Perm.refl _, List.Perm.refl _⟩
+
 /-- **C07.reverse_short** — for peptides of length ≤ 3 `reverse` changes only the flag (their decoy
     has the target's sequence and is therefore removed by the collision filter). -/
 theorem reverse_short {α : Type} (p : Pep α) (h : WF p) (hs : p.sequence.length ≤ 3) :
